@@ -37,16 +37,19 @@ Definition all_cfgs : list cfg :=
      v_nil_old   (before 17ec04c) Shutdown called s.listener.Close() on a nil listener; serve did not
                  look at isShutdown when publishing the listener *)
 Record variant := { v_guard_old : bool; v_load_old : bool; v_track_old : bool; v_drop_old : bool; v_nil_old : bool;
-                    v_raw_err : bool }.
-Definition GuardNow : variant := Build_variant false false false false false false.
-Definition GuardOld : variant := Build_variant true false false false false false.
-Definition LoadOld : variant := Build_variant false true false false false false.
-Definition TrackOld : variant := Build_variant false false true false false false.
-Definition DropOld : variant := Build_variant false false false true false false.
-Definition NilOld : variant := Build_variant false false false false true false.
+                    v_raw_err : bool; v_map_reset : bool }.
+Definition GuardNow : variant := Build_variant false false false false false false false.
+Definition GuardOld : variant := Build_variant true false false false false false false.
+Definition LoadOld : variant := Build_variant false true false false false false false.
+Definition TrackOld : variant := Build_variant false false true false false false false.
+Definition DropOld : variant := Build_variant false false false true false false false.
+Definition NilOld : variant := Build_variant false false false false true false false.
 (* not a historical version: the reject path reporting a close error through the raw field s.OnErrorFunc
    instead of the local onErrorFunc (which carries the logging default) *)
-Definition RawErr : variant := Build_variant false false false false false true.
+Definition RawErr : variant := Build_variant false false false false false true false.
+(* not a historical version either: serve() allocating Server.activeConnections afresh every time it is
+   called, so that serving the same Server value again forgets the connections of the earlier call *)
+Definition MapReset : variant := Build_variant false false false false false false true.
 Definition close_guard (v : variant) (k : cfg) : bool :=
   if v_guard_old v then on_accept k else on_close k.
 
@@ -175,26 +178,28 @@ Record state := {
   mu : bool;                (* s.mu is held across steps; only Shutdown does that (every other critical section is one step) *)
   count : Z;                (* activeConnectionCount *)
   crashed : bool;           (* a nil function value was called: the process is gone *)
-  errs : nat                (* ghost: invocations of the user's OnErrorFunc *)
+  errs : nat;               (* ghost: invocations of the user's OnErrorFunc *)
+  upto : nat                (* connections 0 .. upto-1 were accepted by an earlier call of serve, whose context is cancelled *)
 }.
 
 Definition init : state :=
   {| conns := []; lis_set := false; lis_open := true; shut := false; cancelled := false; sp := SStart; sd := SdIdle;
-     sd_req := false; sd_err := false; mu := false; count := 0%Z; crashed := false; errs := 0 |}.
+     sd_req := false; sd_err := false; mu := false; count := 0%Z; crashed := false; errs := 0; upto := 0 |}.
 
-Definition s_conns v s := Build_state v (lis_set s) (lis_open s) (shut s) (cancelled s) (sp s) (sd s) (sd_req s) (sd_err s) (mu s) (count s) (crashed s) (errs s).
-Definition s_lis_set v s := Build_state (conns s) v (lis_open s) (shut s) (cancelled s) (sp s) (sd s) (sd_req s) (sd_err s) (mu s) (count s) (crashed s) (errs s).
-Definition s_lis_open v s := Build_state (conns s) (lis_set s) v (shut s) (cancelled s) (sp s) (sd s) (sd_req s) (sd_err s) (mu s) (count s) (crashed s) (errs s).
-Definition s_shut v s := Build_state (conns s) (lis_set s) (lis_open s) v (cancelled s) (sp s) (sd s) (sd_req s) (sd_err s) (mu s) (count s) (crashed s) (errs s).
-Definition s_cancelled v s := Build_state (conns s) (lis_set s) (lis_open s) (shut s) v (sp s) (sd s) (sd_req s) (sd_err s) (mu s) (count s) (crashed s) (errs s).
-Definition s_sp v s := Build_state (conns s) (lis_set s) (lis_open s) (shut s) (cancelled s) v (sd s) (sd_req s) (sd_err s) (mu s) (count s) (crashed s) (errs s).
-Definition s_sd v s := Build_state (conns s) (lis_set s) (lis_open s) (shut s) (cancelled s) (sp s) v (sd_req s) (sd_err s) (mu s) (count s) (crashed s) (errs s).
-Definition s_sd_req v s := Build_state (conns s) (lis_set s) (lis_open s) (shut s) (cancelled s) (sp s) (sd s) v (sd_err s) (mu s) (count s) (crashed s) (errs s).
-Definition s_sd_err v s := Build_state (conns s) (lis_set s) (lis_open s) (shut s) (cancelled s) (sp s) (sd s) (sd_req s) v (mu s) (count s) (crashed s) (errs s).
-Definition s_mu v s := Build_state (conns s) (lis_set s) (lis_open s) (shut s) (cancelled s) (sp s) (sd s) (sd_req s) (sd_err s) v (count s) (crashed s) (errs s).
-Definition s_count v s := Build_state (conns s) (lis_set s) (lis_open s) (shut s) (cancelled s) (sp s) (sd s) (sd_req s) (sd_err s) (mu s) v (crashed s) (errs s).
-Definition s_crashed v s := Build_state (conns s) (lis_set s) (lis_open s) (shut s) (cancelled s) (sp s) (sd s) (sd_req s) (sd_err s) (mu s) (count s) v (errs s).
-Definition s_errs v s := Build_state (conns s) (lis_set s) (lis_open s) (shut s) (cancelled s) (sp s) (sd s) (sd_req s) (sd_err s) (mu s) (count s) (crashed s) v.
+Definition s_conns v s := Build_state v (lis_set s) (lis_open s) (shut s) (cancelled s) (sp s) (sd s) (sd_req s) (sd_err s) (mu s) (count s) (crashed s) (errs s) (upto s).
+Definition s_lis_set v s := Build_state (conns s) v (lis_open s) (shut s) (cancelled s) (sp s) (sd s) (sd_req s) (sd_err s) (mu s) (count s) (crashed s) (errs s) (upto s).
+Definition s_lis_open v s := Build_state (conns s) (lis_set s) v (shut s) (cancelled s) (sp s) (sd s) (sd_req s) (sd_err s) (mu s) (count s) (crashed s) (errs s) (upto s).
+Definition s_shut v s := Build_state (conns s) (lis_set s) (lis_open s) v (cancelled s) (sp s) (sd s) (sd_req s) (sd_err s) (mu s) (count s) (crashed s) (errs s) (upto s).
+Definition s_cancelled v s := Build_state (conns s) (lis_set s) (lis_open s) (shut s) v (sp s) (sd s) (sd_req s) (sd_err s) (mu s) (count s) (crashed s) (errs s) (upto s).
+Definition s_sp v s := Build_state (conns s) (lis_set s) (lis_open s) (shut s) (cancelled s) v (sd s) (sd_req s) (sd_err s) (mu s) (count s) (crashed s) (errs s) (upto s).
+Definition s_sd v s := Build_state (conns s) (lis_set s) (lis_open s) (shut s) (cancelled s) (sp s) v (sd_req s) (sd_err s) (mu s) (count s) (crashed s) (errs s) (upto s).
+Definition s_sd_req v s := Build_state (conns s) (lis_set s) (lis_open s) (shut s) (cancelled s) (sp s) (sd s) v (sd_err s) (mu s) (count s) (crashed s) (errs s) (upto s).
+Definition s_sd_err v s := Build_state (conns s) (lis_set s) (lis_open s) (shut s) (cancelled s) (sp s) (sd s) (sd_req s) v (mu s) (count s) (crashed s) (errs s) (upto s).
+Definition s_mu v s := Build_state (conns s) (lis_set s) (lis_open s) (shut s) (cancelled s) (sp s) (sd s) (sd_req s) (sd_err s) v (count s) (crashed s) (errs s) (upto s).
+Definition s_count v s := Build_state (conns s) (lis_set s) (lis_open s) (shut s) (cancelled s) (sp s) (sd s) (sd_req s) (sd_err s) (mu s) v (crashed s) (errs s) (upto s).
+Definition s_crashed v s := Build_state (conns s) (lis_set s) (lis_open s) (shut s) (cancelled s) (sp s) (sd s) (sd_req s) (sd_err s) (mu s) (count s) v (errs s) (upto s).
+Definition s_errs v s := Build_state (conns s) (lis_set s) (lis_open s) (shut s) (cancelled s) (sp s) (sd s) (sd_req s) (sd_err s) (mu s) (count s) (crashed s) v (upto s).
+Definition s_upto v s := Build_state (conns s) (lis_set s) (lis_open s) (shut s) (cancelled s) (sp s) (sd s) (sd_req s) (sd_err s) (mu s) (count s) (crashed s) (errs s) v.
 
 (* ---------- labels ---------- *)
 Inductive rres := RData | RTimeout | REof | RErr | RIdleTo.   (* result of conn.Read, RIdleTo = nothing for 25 s *)
@@ -245,7 +250,9 @@ Inductive label :=
 | LRejectCloseErr (c : nat)         (* serve, reject path: `if err := netConn.Close(); err != nil` taken *)
 | LDropCloseErr (c : nat)           (* serve, drop paths: likewise *)
 | LConnExitErr (c : nat)            (* connection goroutine's deferred function: likewise *)
-| LServeErrCb (c : nat).            (* serve: onErrorFunc(fmt.Errorf("connection.close error, ..")) -- the LOCAL onErrorFunc,
+| LServeErrCb (c : nat)
+| LReServe.                         (* the caller serves the SAME Server value again (new listener, new context) after a serve
+                                       that was ended by cancelling its context has returned *)            (* serve: onErrorFunc(fmt.Errorf("connection.close error, ..")) -- the LOCAL onErrorFunc,
                                        which is the user's OnErrorFunc if set and the logging default otherwise *)
 
 Definition label_gor (l : label) : gor :=
@@ -256,7 +263,7 @@ Definition label_gor (l : label) : gor :=
   | LReplyWrite c _ | LHandleEnd c | LErrCb c | LConnLeave c | LConnExit c | LUntrack c | LCloseCb c
   | LConnExitErr c => GConn c
   | LSdCall | LSdBegin | LSdCas _ | LSdLoad _ | LSdClose _ | LSdPassEnd | LSdRetry | LSdTimeout | LSdReturn => GShutdown
-  | LCancel => GCaller
+  | LCancel | LReServe => GCaller
   | LAfterClose => GAfter
   end.
 
@@ -410,7 +417,7 @@ Definition step (v : variant) (k : cfg) (s : state) (l : label) : option state :
         | RErr => Some (c_ph PLeaving (c_pend true x))
         end)
   | LConnCtxExit c =>
-      conn_step s c PIdle (fun x => if cancelled s then Some (c_ph PLeaving x) else None)
+      conn_step s c PIdle (fun x => if cancelled s || (c <? upto s)%nat then Some (c_ph PLeaving x) else None)
   | LHandleStart c =>
       conn_step s c PReadDone (fun x =>
         match cst x with
@@ -567,6 +574,18 @@ Definition step (v : variant) (k : cfg) (s : state) (l : label) : option state :
           else None
       | _ => None
       end
+  | LReServe =>
+      (* serve(ctx', listener') on the same Server value: the tracked set, the counter and every connection
+         stay as they are (the map is allocated lazily by trackConn, once); the connections accepted so far
+         keep their -- cancelled -- context.  Not after Shutdown (serve would return at once). *)
+      match sp s with
+      | SReturned _ =>
+          if cancelled s && negb (shut s) && negb (v_drop_old v)   (* (the DropOld variant may have left a connection behind) *)
+          then Some (s_upto (length (conns s)) (s_sp SStart (s_lis_open true (s_cancelled false
+                 (if v_map_reset v then s_conns (map (c_inmap false) (conns s)) s else s)))))
+          else None
+      | _ => None
+      end
   end.
 
 (* the step function of the code as it is now *)
@@ -591,7 +610,8 @@ Inductive obs :=
 | OServeReturn (e : err) | ORead (c : nat) (r : rres) | OHandlerStart (c : nat) | OHandlerEnd (c : nat) (ok : bool)
 | OWrite (c : nat) (ok : bool) | OErrCb | OCloseCb (c : nat) (isshut : bool)
 | OSdCall | OSdReturn (e : err) | OCancel
-| ODefLog.   (* onErrorFunc was the logging default: a line of the standard logger *)
+| ODefLog
+| OReServe.   (* onErrorFunc was the logging default: a line of the standard logger *)
 
 Definition observe (k : cfg) (s : state) (l : label) : option obs :=
   match l with
@@ -614,5 +634,6 @@ Definition observe (k : cfg) (s : state) (l : label) : option obs :=
   | LSdReturn => Some (OSdReturn (if sd_err s then EOther else ENil))
   | LSdTimeout => Some (OSdReturn ECtx)
   | LCancel => Some OCancel
+  | LReServe => Some OReServe
   | _ => None
   end.
